@@ -58,9 +58,46 @@ type fieldRel struct {
 	pos      token.Pos
 }
 
-func extractRel(f *ssa.Function, toMsg bool) (rels []fieldRel) {
+func extractRel(f *ssa.Function, toMsg bool) (rels []fieldRel) { return extractRelDepth(f, toMsg, 0) }
+
+func extractRelDepth(f *ssa.Function, toMsg bool, depth int) (rels []fieldRel) {
+	if len(f.Params) < 2 {
+		return nil
+	}
 	recv := f.Params[0]
 	m := f.Params[1]
+	// copies delegated to a helper of a sub-object (c.DomainConfig.marshalToMsg(m)): the helper's relation, with the
+	// sub-object's path in front
+	if depth < 2 {
+		engine.ForEachInstr(f, func(in ssa.Instruction) {
+			call, ok := in.(*ssa.Call)
+			if !ok {
+				return
+			}
+			cf := engine.CalleeFn(call)
+			if cf == nil || cf.Blocks == nil || cf.Pkg != f.Pkg || len(cf.Params) < 2 || len(call.Call.Args) < 2 {
+				return
+			}
+			if obj, _ := cf.Object().(*types.Func); obj == nil || obj.Exported() {
+				return // the exported base methods are pairs of their own
+			}
+			if call.Call.Args[1] != ssa.Value(m) {
+				return
+			}
+			root, pth := engine.FieldPath(call.Call.Args[0])
+			if root != ssa.Value(recv) {
+				return
+			}
+			prefix := engine.PathString(pth)
+			for _, r := range extractRelDepth(cf, toMsg, depth+1) {
+				cp := r.cfgPath
+				if prefix != "" && !strings.HasPrefix(cp, prefix) {
+					cp = prefix + "." + cp
+				}
+				rels = append(rels, fieldRel{r.msgField, cp, r.pos})
+			}
+		})
+	}
 	engine.ForEachInstr(f, func(in ssa.Instruction) {
 		st, ok := in.(*ssa.Store)
 		if !ok {
@@ -339,6 +376,13 @@ func runC18(c *engine.Ctx) {
 			for _, call := range engine.CallsTo(f, vpo) {
 				_, pth, _ := valuePath(engine.CallArgs(call)[0])
 				fields[pth] = true
+				// the ports may be collected in a table that a loop walks: every configuration field the argument can
+				// come from counts
+				for fv := range engine.Provenance(engine.CallArgs(call)[0], engine.ProvOpts{NoArgs: true}).Fields {
+					if fv.Pkg() != nil && strings.HasSuffix(fv.Pkg().Path(), "/pkg/config/v1") {
+						fields[fv.Name()] = true
+					}
+				}
 			}
 		}
 		var fl []string
